@@ -372,9 +372,34 @@ Proof.
   - intros c' Hc'. rewrite L in Hc'. cbn in Hc'. now apply F.
 Qed.
 
+(* the collector removes a partial tile only when its full tile is there, and never a full tile *)
+Lemma gc_serves_ext st n : serves_ext Ent Hsh st n -> serves_ext Ent Hsh (gc_store Ent Hsh st) n.
+Proof.
+  intros [A B].
+  destruct (lookup st KCkpt) as [[| |c]|] eqn:Ck;
+    try (unfold Model.gc_store; rewrite Ck; split; assumption).
+  set (s := ck_size c).
+  assert (L : forall k, lookup (gc_store Ent Hsh st) k =
+                        if gc_removes Ent Hsh st s k then None else lookup st k).
+  { intro k. rewrite gc_lookup, Ck. reflexivity. }
+  assert (Keep : forall k, pres Ent Hsh st k -> gc_removes Ent Hsh st s k = false ->
+                           pres Ent Hsh (gc_store Ent Hsh st) k).
+  { intros k P R. unfold InvDef.pres, present in *. rewrite L, R. exact P. }
+  split.
+  - intros t Ht. destruct (A t Ht) as [P|P]; [|right; apply Keep; [exact P|reflexivity]].
+    destruct (gc_removes Ent Hsh st s (KHash t)) eqn:R; [|left; now apply Keep].
+    right. cbn [Model.gc_removes] in R. apply andb_true_iff in R. destruct R as [R _].
+    apply andb_true_iff in R. destruct R as [_ R]. apply Keep; [exact R|reflexivity].
+  - intros j Hj. destruct (B j Hj) as [P|P]; [|right; apply Keep; [exact P|reflexivity]].
+    destruct (gc_removes Ent Hsh st s (KData j (N.min 256 (n - j * 256)))) eqn:R; [|left; now apply Keep].
+    right. cbn [Model.gc_removes] in R. apply andb_true_iff in R. destruct R as [R _].
+    apply andb_true_iff in R. destruct R as [_ R]. apply Keep; [exact R|reflexivity].
+Qed.
+
 Lemma gc_inv w : MInv w -> MInv (upd_store w (gc_store Ent Hsh (w_store w))).
 Proof.
-  intro Hi. destruct Hi. constructor; unf; auto. now apply gc_IS.
+  intro Hi. destruct Hi. constructor; unf; auto; [now apply gc_IS|].
+  intros r Hr. apply gc_serves_ext. now apply i_persist.
 Qed.
 
 End Steps.
